@@ -166,10 +166,15 @@ Definition s_verdict (c : N) (n : nsname) (ok : bool) (sid : N) (s : server) : s
   let ns := sv_nsp s n in
   if existsb (N.eqb c) (ns_held ns) then
     if ok then
-      (set_table (set_nsp s n (mkNS (ns_exists ns) (ns_socks ns ++ [mkSS sid c [] []]) (ns_ack ns)
-                                    (remove_one c (ns_held ns))))
-                 c (aset n sid (table s c)),
-       [OSend c (mkP PConnect n None 0); OLife true c n 0])
+      let s1 := set_table (set_nsp s n (mkNS (ns_exists ns) (ns_socks ns ++ [mkSS sid c [] []]) (ns_ack ns)
+                                             (remove_one c (ns_held ns))))
+                          c (aset n sid (table s c)) in
+      let o1 := [OSend c (mkP PConnect n None 0); OLife true c n 0] in
+      (* serverConn.connect re-checks after the admission: a socket admitted while or after its
+         connection was closed is closed at once (c5b4563) *)
+      if sc_closed (sv_conn s c)
+      then (fst (sock_close c n sid s1), o1 ++ snd (sock_close c n sid s1))
+      else (s1, o1)
     else
       (set_nsp s n (mkNS (ns_exists ns) (ns_socks ns) (ns_ack ns) (remove_one c (ns_held ns))),
        [OSend c (mkP PConnectError n None 0)])
